@@ -79,7 +79,7 @@ def make_rule(i: int, fail: str | None, nconds: int, product: str):
     # keep 'other'/'ph' referenced so that every rule is valid apart from the planted failure
     if not any("other" in c for c in conds):
         conds[0] = conds[0] + " or other"
-    d = {"title": f"rule{i}", "logsource": ls, "detection": dict(det, condition=conds if len(conds) > 1 else conds[0])}
+    d = {"title": f"rule{i}", "name": f"rn{i}", "logsource": ls, "detection": dict(det, condition=conds if len(conds) > 1 else conds[0])}
     return d
 
 
@@ -88,8 +88,9 @@ def _convert(cfg, docs, use_pipeline: bool, collect: bool):
     from sigma.processing.pipeline import ProcessingPipeline
 
     pipeline = ProcessingPipeline.from_dict(copy.deepcopy(PIPELINE)) if use_pipeline else None
+    from vf.target.correlation import correlation_attrs
     backend = make_backend(cfg, pipeline, collect_errors=collect,
-                           extra_attrs={"query_expression": "{query} ##idx={state[index]}", "state_defaults": {"index": "none"}})
+                           extra_attrs=dict(correlation_attrs({}), **{"query_expression": "{query} ##idx={state[index]}", "state_defaults": {"index": "none"}}))
     coll = SigmaCollection.from_dicts(copy.deepcopy(docs))
     try:
         res = backend.convert(coll)
@@ -111,14 +112,30 @@ def check_case(case: dict) -> Outcome:
     out.label("collect" if collect else "strict", "pipeline" if use_p else "no-pipeline")
     for f in set(x for x in plan if x):
         out.label("fail:" + f)
+    corr = case.get("corr")
     solo = [_convert(cfg, [d], use_p, False) for d in docs]
     # sanity: the plan and the solo outcome must agree (harness generator property)
     for i, (f, s) in enumerate(zip(plan, solo)):
         if bool(f) != (s[0] == "raised"):
             out.skipped = f"plan/solo disagreement at {i}: plan={f} solo={s[:2]}"
             return out
-    got = _convert(cfg, docs, use_p, collect)
-    exp_queries = [q for s in solo if s[0] == "ok" for q in s[1]]
+    got = _convert(cfg, docs + ([corr] if corr else []), use_p, collect)
+    silenced = set()
+    corr_fails = False
+    if corr:
+        out.label("with-correlation")
+        refs = corr["correlation"]["rules"]
+        ref_idx = [i for i, d in enumerate(docs) if d.get("name") in refs]
+        if not corr["correlation"].get("generate"):
+            silenced = set(ref_idx)
+        corr_fails = any(plan[i] for i in ref_idx)
+    exp_queries = [q for i, s in enumerate(solo) if s[0] == "ok" and i not in silenced for q in s[1]]
+    if corr and not corr_fails:
+        sub = _convert(cfg, [docs[i] for i in ref_idx] + [corr], use_p, False)
+        if sub[0] != "ok":
+            out.skipped = "correlation sub-collection does not convert on its own"
+            return out
+        exp_queries.append(sub[1][-1])
     stage = ",".join(sorted({plan[i] for i in failing})) or "none"
     if collect:
         if got[0] != "ok":
@@ -128,6 +145,11 @@ def check_case(case: dict) -> Outcome:
         if got[1] != exp_queries:
             out.fail("C08:collect:queries", f"plan={plan}: got {got[1]} expected {exp_queries}")
         exp_errors = [(docs[i]["title"], solo[i][1], solo[i][2]) for i in failing]
+        if corr and corr_fails:
+            # a correlation rule whose referenced rule failed cannot be converted either: one record
+            if not got[2] or got[2][-1][0] != corr["title"]:
+                out.fail("C08:collect:correlation-error-record", f"plan={plan}: no error record for the correlation rule whose referent failed: {got[2]}")
+            got = (got[0], got[1], got[2][:-1] if got[2] and got[2][-1][0] == corr["title"] else got[2])
 
         def same(rec, exp):
             if rec == exp:
@@ -175,7 +197,12 @@ def cases(draw):
             cl = [x.replace(" or ph", "").replace("other or ph", "other") for x in cl]
             cl = [x if x != "other or ph" else "other" for x in cl]
             r["detection"]["condition"] = cl if len(cl) > 1 else cl[0]
-    return {"cfg": cfg, "rules": rules, "pipeline": use_p, "collect": draw(st.booleans()), "plan": plan}
+    case = {"cfg": cfg, "rules": rules, "pipeline": use_p, "collect": draw(st.booleans()), "plan": plan}
+    if draw(st.integers(0, 2)) == 0:
+        refs = draw(st.lists(st.sampled_from([f"rn{i}" for i in range(n)]), min_size=1, max_size=2, unique=True))
+        case["corr"] = {"title": "corr", "correlation": {"type": "event_count", "rules": refs, "timespan": "5m", "condition": {"gte": 2},
+                                                        "generate": draw(st.booleans())}}
+    return case
 
 
 def run(ctx) -> None:
